@@ -21,6 +21,7 @@ CONSTANTS
   A2 = a2
   ByMac = TRUE
   RacyStart = FALSE
+  NarrowES = FALSE
   MaxLoops = 3
   MaxDepth = 0
   Bounded = FALSE
